@@ -724,4 +724,98 @@ theorem step_rel {limit : Nat} (cfg : Cfg) (hl : cfg.lineLength = limit) (st : L
     rw [hk]
     exact step_blank cfg hl st s R x t g ht hb
 
+theorem wellTerminated_cons (b : Nat) (k : Spec.Kind) (ks : List Spec.Kind) (h : wellTerminated b (k :: ks) = true) :
+    (∀ col ws amp, k = .data col ws amp → b < 3) ∧ wellTerminated (Spec.step ⟨b, none, false⟩ k).2.block ks = true := by
+  cases k with
+  | blank =>
+    refine ⟨fun _ _ _ e => by simp at e, ?_⟩
+    simp only [wellTerminated] at h
+    unfold Spec.step
+    by_cases hb : b ≥ 3
+    · simp only [hb, ↓reduceIte] at h ⊢; exact h
+    · simp only [hb, ↓reduceIte] at h ⊢; exact h
+  | comment =>
+    refine ⟨fun _ _ _ e => by simp at e, ?_⟩
+    simp only [wellTerminated] at h
+    unfold Spec.step
+    by_cases hb : b ≥ 3 <;> simp_all
+  | data col ws amp =>
+    simp only [wellTerminated, Bool.and_eq_true, decide_eq_true_eq] at h
+    refine ⟨fun _ _ _ _ => h.1, ?_⟩
+    unfold Spec.step
+    have : ¬ b ≥ 3 := by omega
+    simp [this, h.2]
+
+theorem step_block (s : Spec.St) (k : Spec.Kind) :
+    (Spec.step s k).2.block = (Spec.step ⟨s.block, none, false⟩ k).2.block := by
+  unfold Spec.step
+  by_cases hb : s.block ≥ 3
+  · simp [hb]
+  · simp only [hb, ↓reduceIte]
+    cases k with
+    | blank => rfl
+    | comment => rfl
+    | data col ws amp =>
+      cases s.cur with
+      | none => rfl
+      | some cw => simp only; split <;> rfl
+
+/-- **the simulation**: all the lines of a file -/
+theorem sim {limit : Nat} (cfg : Cfg) (hl : cfg.lineLength = limit) (ms : List (List Char × List Char)) :
+    ∀ (st : LState) (s : Spec.St), Rel limit cfg st s →
+      (∀ p ∈ ms, GoodLine limit p.1 ∧ IsTerm p.2) →
+      wellTerminated s.block (ms.map (fun p => Spec.classifyPhysical p.1)) = true →
+      proj (goLines cfg st (ms.map (fun p => p.1 ++ p.2))) =
+        Spec.cutS ((Spec.run s (ms.map (fun p => Spec.classifyPhysical p.1))).map (O cfg)) := by
+  induction ms with
+  | nil =>
+    intro st s R _ _
+    simp only [List.map_nil, goLines, Spec.run]
+    have hfl := flush_rel cfg st s R
+    rw [hfl.1]
+    cases hcl : (Spec.close s).map (O cfg) with
+    | nil => rfl
+    | cons o rest =>
+      have : rest = [] := by
+        have h1 := hfl.2.2
+        have h2 : ((Spec.close s).map (O cfg)).length = (o :: rest).length := by rw [hcl]
+        simp only [List.length_map, List.length_cons] at h2
+        cases rest with
+        | nil => rfl
+        | cons => simp at h2; omega
+      subst this
+      rw [cutS_cons]; split <;> rfl
+  | cons p ms ih =>
+    intro st s R hgood hwt
+    obtain ⟨g, ht⟩ := hgood p (by simp)
+    simp only [List.map_cons] at hwt ⊢
+    obtain ⟨hdata, hwt'⟩ := wellTerminated_cons _ _ _ hwt
+    have hstep := step_rel cfg hl st s R p.1 p.2 g ht hdata
+    obtain ⟨hproj, hraise, hlen, hrel⟩ := hstep
+    simp only [goLines, Spec.run, List.map_append]
+    cases hr : hasRaise (stepLine cfg st (p.1 ++ p.2)).1
+    · simp only [Bool.false_eq_true, ↓reduceIte]
+      rw [proj_append, hproj, cutS_append_noErr _ _ (by rw [← hraise]; exact hr)]
+      congr 1
+      apply ih _ _ (hrel hr) (fun q hq => hgood q (List.mem_cons_of_mem _ hq))
+      rw [step_block]; exact hwt'
+    · simp only [↓reduceIte]
+      rw [hproj, cutS_short _ _ (by simpa using hlen) (by rw [← hraise]; exact hr)]
+
+/-- the initial states are related -/
+theorem rel_init {limit : Nat} (cfg : Cfg) : Rel limit cfg (initState cfg) ⟨cfg.firstBlock.value, none, false⟩ := by
+  constructor
+  · intro _; exact ⟨rfl, rfl⟩
+  · intro h; simp only at h; cases hb : cfg.firstBlock <;> simp [hb, BlockType.value] at h
+  · intro _; exact ⟨rfl, fun r hr => by simp [initState] at hr⟩
+  · intro ws h; simp at h
+
+/-- **per file**: `read_data` on the lines of a file, seen through `proj`, is the Spec's stream of the file -/
+theorem readData_refines {limit : Nat} (cfg : Cfg) (hl : cfg.lineLength = limit) (ms : List (List Char × List Char))
+    (hgood : ∀ p ∈ ms, GoodLine limit p.1 ∧ IsTerm p.2)
+    (hwt : wellTerminated cfg.firstBlock.value (ms.map (fun p => Spec.classifyPhysical p.1)) = true) :
+    proj (readData cfg (ms.map (fun p => p.1 ++ p.2))) =
+      Spec.cutS ((Spec.run ⟨cfg.firstBlock.value, none, false⟩ (ms.map (fun p => Spec.classifyPhysical p.1))).map (O cfg)) :=
+  sim cfg hl ms _ _ (rel_init cfg) hgood hwt
+
 end MontePyVerif.Refine
